@@ -1,9 +1,10 @@
 SPECIFICATION Spec
 CONSTANTS
-  TN = {"a", "b"}
+  TN = {"a", "b", "c"}
   AN = {"x"}
-  RN = {"r", "s"}
+  RN = {"r"}
   MaxTypes = 2
+  Rich = TRUE
 VIEW View
 INVARIANTS InvWellFormed InvLookups CoherentAfterTwoWay
 PROPERTIES ErrLeavesUnchanged RemoveAbsentIsNoop TwoWayPost
